@@ -130,11 +130,11 @@ theorem time_nice_on_boundaries (d0 d1 : Int) (m : Rat) (u : Calendar.TUnit) (s 
 -- non-vacuity: `nice (3/10) (97/10) 10 = (0, 10)` (evaluated); time: `nice 1000 90000000 10 = (0, 97200000)`
 example : Calendar.nice 1000 90000000 10 = (0, 97200000) := by decide +kernel
 
-/-- **C14 (time part) in full** for the model: for every domain and every count 2…50 the nice domain satisfies the
+/-- **C14 (time part) in full** for the model: for every domain and EVERY positive count (whole or fractional) the nice domain satisfies the
 complete predicate: ends only move outward, by less than two tick steps (largest gap of the original domain's ticks),
 onto boundaries at least as coarse as the tick spacing -/
-theorem time_nice_ok (d0 d1 : Int) (m : Nat) (hm : 2 ≤ m ∧ m ≤ 50) :
-    Calendar.niceOKB d0 d1 (m : Rat) (Calendar.nice d0 d1 (m : Rat)).1 (Calendar.nice d0 d1 (m : Rat)).2 = true :=
+theorem time_nice_ok (d0 d1 : Int) (m : Rat) (hm : 0 < m) :
+    Calendar.niceOKB d0 d1 m (Calendar.nice d0 d1 m).1 (Calendar.nice d0 d1 m).2 = true :=
   C16.nice_ok d0 d1 m hm
 
 end Labella.C14
